@@ -23,6 +23,28 @@ MY = {"C09": {"C09.additive"},
       "C11": {"C11.wellformed", "C11.textcontent", "C11.wrapall"}}
 
 
+def span_docs(thorough):
+    """every span, and every pair of spans, of short plain texts that contain blanks (spans that cover only
+    whitespace, empty, touching, nested, overlapping spans), without a source; every single span also against a
+    marked-up source (the inserted tags do not occur in the plain text: forced alignment)"""
+    texts = ["ab  cd e", " a b ", "1 U.S. 1, 2", "a\n\tb c"] + (["x  y", "Id. at 5 ;"] if thorough else [])
+    out = []
+    for t in texts:
+        n = len(t)
+        spans = [(a, b) for a in range(n + 1) for b in range(a, n + 1)]
+        marked = "<p>" + "".join(f"<i>{w}</i>" if i % 2 == 0 and w.strip() else w for i, w in enumerate(t.split(" ")) for w in [w + " "]).rstrip(" ") + "</p>"
+        for mode in ("unchecked", "skip", "wrap"):
+            for sp in spans:
+                out.append({"plain": t, "target": t, "hasSrc": False, "mode": mode, "anns": [list(sp)], "dmp": True})
+                if "\n" not in t:
+                    out.append({"plain": t, "target": marked, "hasSrc": True, "mode": mode, "anns": [list(sp)], "dmp": len(out) % 2 == 0})
+            step = 1 if n <= 8 else 2
+            for a in spans[::step]:
+                for b in spans[::step]:
+                    out.append({"plain": t, "target": t, "hasSrc": False, "mode": mode, "anns": sorted([list(a), list(b)]), "dmp": True})
+    return out
+
+
 def long_docs(rnd, n):
     """forced-alignment documents > 100 characters with repeated lines (diff engines switch
     strategy on long inputs); plain = digits, spaces, dots, newlines; inserted = tags, tabs"""
@@ -119,6 +141,16 @@ def main(pid):
     for line in r.out.splitlines():
         if line.startswith('<<"R", '):
             cfgs.append(json.loads(json.loads(line[7:-2])))
+    # well-formed bold runs with self-closing elements (<br/>), and style runs with TWO annotations
+    # (a style-tag repair that extends a span over the next one)
+    for extra_cfg, const in (("MC_Annotate_wfsc.cfg", "WfOnly tokens t1 <b> </b> <br/> MaxToks=7 MaxAnns=1"),
+                             ("MC_Annotate_style2.cfg", "WfOnly tokens t1 <i> </i> MaxToks=6 MaxAnns=2")):
+        r = run_tlc("MC_Annotate", extra_cfg, timeout=3000)
+        tlc_must_pass(r, extra_cfg)
+        ev.add_tlc(extra_cfg, r, const)
+        for line in r.out.splitlines():
+            if line.startswith('<<"R", '):
+                cfgs.append(json.loads(json.loads(line[7:-2])))
     del r
     if not cfgs:
         raise MachineryError("no configurations emitted")
@@ -135,7 +167,7 @@ def main(pid):
     fails, drifts = tlc_judge("Trace_Annotate", "Trace_Annotate.cfg", obs, ev, "configs")
     total += len(obs)
 
-    def report(fails, drifts, obs, kind):
+    def report(fails, drifts, obs, kind, func=None, its=None):
         for ix, cl in fails:
             if cl in mine:
                 o = obs[ix]
@@ -148,11 +180,13 @@ def main(pid):
                               "tokens": "-".join(t["c"] for t in o.get("src", [])),
                               # mechanism signature for the difflib finding: engine + repeated plain lines
                               "engine": "dmp" if o.get("dmp") else "difflib",
-                              "repeated_lines": len(set(lines)) < len(lines)})
+                              "repeated_lines": len(set(lines)) < len(lines)},
+                             judge=vlib.J("Trace_Annotate", "Trace_Annotate.cfg", o),
+                             rerun=vlib.R("drv_annotate", func, its[ix]) if func else None)
         for ix, rest in drifts:
             o = obs[ix]
             vd.spec_drift("Annotate", f"{kind} src={[t['c'] for t in o.get('src', [])]} mode={o.get('mode')} anns={o.get('anns')} out={o.get('output')!r}")
-    report(fails, drifts, obs, "token configuration")
+    report(fails, drifts, obs, "token configuration", "run_cfg", items)
     mid = obs[len(obs) // 2]
     ev.sample({"tokens": [t["c"] for t in mid["src"]], "mode": mid["mode"], "hasSrc": mid["hasSrc"],
                "anns": mid["anns"], "output": mid.get("output")})
@@ -162,8 +196,16 @@ def main(pid):
     obs2 = vlib.impl_map("drv_annotate", "run_text", docs)
     fails, drifts = tlc_judge("Trace_Annotate", "Trace_Annotate.cfg", obs2, ev, "longdocs", chunk=400)
     total += len(obs2)
-    report(fails, [], obs2, "long document")
+    report(fails, [], obs2, "long document", "run_text", docs)
     ev.sample({"long_document_target": docs[0]["target"][:160], "anns": docs[0]["anns"][:4]})
+
+    # (C) every span / pair of spans of short texts with blanks
+    sdocs = span_docs(thorough)
+    obs5 = vlib.impl_map("drv_annotate", "run_text", sdocs)
+    fails, _ = tlc_judge("Trace_Annotate", "Trace_Annotate.cfg", obs5, ev, "spans", chunk=20000)
+    total += len(obs5)
+    report(fails, [], obs5, "short text, every span", "run_text", sdocs)
+    ev.cov["short_text_span_sets"] = len(obs5)
 
     # (C) the real-world pipeline on generated markup: clean -> get_citations -> annotate the source
     # markup with the returned spans (span / full span / span with pin cite), skip and wrap
@@ -182,7 +224,7 @@ def main(pid):
     obs4 = vlib.impl_map("drv_annotate", "run_pipeline", pitems)
     fails, _ = tlc_judge("Trace_Annotate", "Trace_Annotate.cfg", obs4, ev, "pipeline", chunk=1500)
     total += len(obs4)
-    report(fails, [], obs4, "markup pipeline")
+    report(fails, [], obs4, "markup pipeline", "run_pipeline", pitems)
     ev.cov["pipeline_documents"] = len(mk)
     ev.cov["pipeline_annotations"] = sum(len(o["anns"]) for o in obs4)
     ev.sample({"pipeline_markup": mk[0][:160], "annotated": (obs4[0].get("output") or "")[:200]})
@@ -195,7 +237,8 @@ def main(pid):
     for ix, cl in fails:
         if cl in mine:
             vd.violation(cl, {"kind": "string pair", **pairs[ix], "observed": obs3[ix]},
-                         {"clause": cl, "dmp": pairs[ix]["dmp"]})
+                         {"clause": cl, "dmp": pairs[ix]["dmp"]},
+                         judge=vlib.J("Trace_SpanUpdater", "Trace_SpanUpdater.cfg", obs3[ix]), rerun=vlib.R("drv_annotate", "run_updater", pairs[ix]))
     for ix, rest in drifts:
         vd.spec_drift("SpanUpdater", f"pair {pairs[ix]!r} script={obs3[ix]['script']}")
     ev.sample({"string_pair": pairs[0], "script": obs3[0]["script"]})
